@@ -62,6 +62,8 @@ type World struct {
 	NextWID uint32
 	attachA map[*Conn]int // index into AckLog at attach time
 	rest    http.Handler  // the controller's management API (what an operator or the CSI driver sees)
+	// OperatorRW: an operator request set a replica's mode to RW by hand (no verification, no counter equalisation)
+	OperatorRW bool
 
 	ipA, ipB, ipN  int
 	notes          []string
@@ -330,6 +332,31 @@ func (w *World) CheckSettled(after string) {
 		if strings.Join(a, ",") != strings.Join(b, ",") {
 			collect("C18", "rest-replica-list-differs:"+after, fmt.Sprintf("GET /v1/replicas reports %v, the controller holds %v", b, a))
 		}
+	}
+	// C10: promotion equalises the counter, so all RW replicas report the same count (suspended once an operator
+	// declared a replica RW by fiat: no promotion protocol ran for it)
+	if !w.OperatorRW {
+		var ref int64 = -1
+		refAddr := ""
+		for _, r := range st.Replicas {
+			f := w.Fakes[r.Address]
+			if r.Mode != types.RW || f == nil {
+				continue
+			}
+			f.mu.Lock()
+			rev, fm := f.Rev, f.Mode
+			f.mu.Unlock()
+			if fm != "RW" {
+				collect("C10", "rw-listed-replica-not-told-RW:"+after, fmt.Sprintf("%s is listed RW by the controller but was last told mode %q", r.Address, fm))
+				continue
+			}
+			if ref < 0 {
+				ref, refAddr = rev, r.Address
+			} else if rev != ref {
+				collect("C10", "rw-replicas-report-different-revision-counts:"+after, fmt.Sprintf("%s reports revision %d, %s reports %d: %s", refAddr, ref, r.Address, rev, digest(st, false)))
+			}
+		}
+		w.Res.Count("rw_counter_comparisons", 1)
 	}
 	// a detached replica receives no further calls
 	for _, f := range w.Order {
